@@ -300,12 +300,29 @@ def main(argv=None):
         except Exception as e:   # noqa
             mcase, mres = dict(case, script=unrle(res.get('decisions') or []), lenient=True), res
         mv = next((x for x in mres.get('violations', []) if signature(prop.ID, mcase, x) == sig), v)
-        path = write_replay(prop.ID, mcase, mres, sig, mv)
-        # the replay must reproduce twice in fresh processes
-        ok1, r1, _ = engine.replay_file(prop, path, quiet=True)
-        ok2, r2, _ = engine.replay_file(prop, path, quiet=True)
-        if not (ok1 and ok2 and r1.get('digest') == r2.get('digest')):
-            print(f'HARNESS-ERROR nondeterministic-replay property={prop.ID} signature={sig} replay={path}', flush=True)
+        # the replay must reproduce twice in fresh processes; candidates in order of preference: minimised scenario + schedule
+        # script, the original case with its recorded schedule, the original case as generated (seed only: exploration runs are
+        # deterministic functions of the case, which the determinism self-test checks)
+        seeded = {k: x for k, x in case.items() if k not in ('script', 'lenient')}
+        cands = [(mcase, mres, mv), (dict(case, script=unrle(res.get('decisions') or []), lenient=True), res, v), (seeded, dict(res, decisions=None), v)]
+        path = None
+        for ci, (cc, cr, cv) in enumerate(cands):
+            pth = write_replay(prop.ID, cc, cr, sig, cv, tag='' if ci == 0 else f'_alt{ci}')
+            if ci == 2:
+                # write_replay stores a script taken from the result: the seed-only candidate must not carry one
+                with open(pth) as fh:
+                    doc = json.load(fh)
+                doc['case'] = seeded
+                with open(pth, 'w') as fh:
+                    json.dump(doc, fh, indent=1, default=jdefault)
+            ok1, r1, _ = engine.replay_file(prop, pth, quiet=True)
+            ok2, r2, _ = engine.replay_file(prop, pth, quiet=True)
+            if ok1 and ok2 and r1.get('digest') == r2.get('digest'):
+                path, mv = pth, cv
+                break
+            print(f'note: replay candidate {ci} of {sig} does not reproduce ({pth})', flush=True)
+        if path is None:
+            print(f'HARNESS-ERROR nondeterministic-replay property={prop.ID} signature={sig} replay={pth}', flush=True)
             rc = max(rc, 2)
             continue
         print(f'VIOLATION property={prop.ID} replay={path}', flush=True)
